@@ -12,7 +12,7 @@ Faithful on purpose (these are what the emitted code relies on):
   * the operand stack survives jumps; bin_op / if_stmt / while_loop / call clear it; fast_rev2 / store / equ demand exact sizes;
   * array views (`xs[i]`) are pointers until an instruction dereferences them."""
 import z3
-from core import (Module, Fail, Unsupported, OutOfBound, NIL, ListRef, Cell, Fn, Ptr, CellPtr, Obj, BuiltIn, list_builtin, LIST_BUILTINS, MapRef, MapPtr, Some, map_key, map_builtin, MAP_BUILTINS, is_sym, is_int, is_bool, arith, shift, compare, negate,
+from core import (str_builtin, STR_BUILTINS, concretize, Module, Fail, Unsupported, OutOfBound, NIL, ListRef, Cell, Fn, Ptr, CellPtr, Obj, BuiltIn, list_builtin, LIST_BUILTINS, MapRef, MapPtr, Some, map_key, map_builtin, MAP_BUILTINS, is_sym, is_int, is_bool, arith, shift, compare, negate,
                   logic_not, logic, equals)
 
 SPECIAL = ("<if>", "<else>", "<while>")
@@ -243,6 +243,14 @@ class Machine:
                         if c is None:
                             raise Fail("vec_op", "index variable not mapped")
                         idx = c.v
+                    if isinstance(lst, tuple) and lst[0] == "str":
+                        # string indexing by CHARACTER: the k-th character as a one-character string, out of range fails
+                        k = concretize(o, idx, 0, len(lst[1]) - 1)
+                        if k is None:
+                            raise Fail("vec_op", "index out of bounds")
+                        ops.append(("str", lst[1][k]))
+                        ip = nxt
+                        continue
                     if isinstance(lst, (MapRef, Obj, Fn, bool, int)) or lst is NIL:
                         raise Fail("vec_op", "cannot perform a vector operation on a non-vector")
                     if not isinstance(lst, ListRef):
@@ -336,6 +344,10 @@ class Machine:
                     raise Fail("lookup", "nil object")
                 if isinstance(ob, ListRef) and a[0] in LIST_BUILTINS + ("map", "filter"):
                     ops.append(BuiltIn(a[0]))
+                    ip = nxt
+                    continue
+                if isinstance(ob, tuple) and ob[0] == "str" and a[0] in STR_BUILTINS:
+                    ops.append(BuiltIn(a[0], "str"))
                     ip = nxt
                     continue
                 if isinstance(ob, MapRef) and a[0] in MAP_BUILTINS:
@@ -606,7 +618,7 @@ class Machine:
                             ip = nxt
                             continue
                         self.stack.append(Frame("<native code>#NonSweepingBuiltInFunction(%s)" % NATIVE_NAMES.get(f.name, f.name)))
-                        rv = (map_builtin if f.on == "map" else list_builtin)(o, f.name, bargs[0], bargs[1:])
+                        rv = (map_builtin if f.on == "map" else str_builtin if f.on == "str" else list_builtin)(o, f.name, bargs[0], bargs[1:])
                         if f.on == "map" and f.name in ("remove", "replace") and rv is not NIL:
                             rv = Some(rv)       # MapRemove / MapReplace answer Optional(Some(Box(v)))
                         self.stack.pop()
